@@ -108,15 +108,15 @@ type Cfg struct {
 	Pool     int  `json:"pool"`
 	Evict    int  `json:"evict_permille"`
 	MapOrder int  `json:"map_order"`
-	Scribble bool `json:"scribble"`  // overwrite private input buffers after each call
+	Scribble bool `json:"scribble"` // overwrite private input buffers after each call
 	// ReuseBuf: private arguments of successive calls of one task are written into the same memory
 	// (one buffer per argument position), the way a server reuses its request buffer.
 	ReuseBuf bool `json:"reuse_input_buffer,omitempty"`
 	// ScribbleResults: the caller owns what a call returned and writes all over it (up to its
 	// capacity) as soon as it has looked at it - a later call must not notice.
 	ScribbleResults bool `json:"scribble_results,omitempty"`
-	SpareCap bool `json:"spare_cap"` // input slices have canary-filled spare capacity
-	Warm     bool `json:"warm"`      // run the fixed warm-up before the scenario (else cold caches)
+	SpareCap        bool `json:"spare_cap"` // input slices have canary-filled spare capacity
+	Warm            bool `json:"warm"`      // run the fixed warm-up before the scenario (else cold caches)
 
 	Sched     int     `json:"sched"`
 	SwitchPm  int     `json:"switch_permille,omitempty"`
